@@ -15,6 +15,10 @@ CLAIMED = {
    text="Deductive: VerifyString accepts only if the library check succeeded on exactly (recipient, src) (minisign) resp. a PGP signature check succeeded on a hash that absorbed exactly src; VerifyHeader requires both records, verifies the embedded header, replaces every field of the outer header by the decoded embedded one and leaves no PAX record that is not in the signed header (encoding/json's merge-into-existing-map semantics is modelled); every header that reaches indexHeader / the Query result / Fetch's destination passed the verifier callback with no store in between; closures passed as verifier/decryptor are checked to conform to named specs, and Index requires a real verifier, or the substitution callback together with the no-op verifier (write paths).",
    note="Assumed: minisign.Verify / PublicKey.VerifySignature establish the uninterpreted predicates signedBy / pgpSigOK exactly when they report success; base64/json decode are functions of their input; a tar.Header is written by a callee without precise frame only if handed to it directly. Content verification (signature.Verify closure, Fetch content gate) and key identity for PGP are not yet under contract.",
    design="4.8"),
+ "C09": dict(
+   text="Deductive: EncryptHeader's post-state is proved field by field (every identifying field zero, size kept, PAX format, exactly one PAX record whose value is base64 of bytes produced only by the library encryptor); EncryptString returns ciphertext on both format branches and rejects unknown formats; at every tar WriteHeader call of archive/Update(both branches)/Delete/Move the header is proved sealed (a successful EncryptHeader on that very object with no store to it since) whenever encryption is configured.",
+   note="Assumed: age.Encrypt/openpgp.Encrypt write only ciphertext to their destination; base64/bytes.Buffer transport specs; a tar.Header is written by a callee without precise frame only if handed to it directly. Not decided: that file *content* reaches the tape only through encryption.Encrypt (payload-through-encrypt), wrong-key failure (library behaviour), the constant synthetic PAX header name.",
+   design="4.9"),
  "C15": dict(
    text="Deductive: ghost counters for 'drive opened for writing' and 'index-store mutator called' are proved unchanged on every path of every STFS/File method when the instance is read-only (resp. the handle lacks the write flag); mutating methods are proved to return ErrPermission; the flag word handed to NewFile is proved free of write/append/truncate for every flag value (bit operations exact). Ghost frames force every function between the API and the seams to declare its writes.",
    note="Assumed: the drive is only written through BackendConfig.GetWriter and the index only through the five MetadataPersister mutators (specs in /verif/specs); loggers and write caches do not touch stfs state; configuration fields immutable after construction (checked mechanically). 'Reads return what a writable instance returns' is not decided.",
@@ -26,7 +30,7 @@ NOT_YET = {
  "C03": "not yet built (planned, DESIGN 4.3)",
  "C05": "not yet built (planned, DESIGN 4.5)", "C06": "not yet built (planned, DESIGN 4.6)",
  "C07": "not yet built (planned, DESIGN 4.7)", 
- "C09": "not yet built (planned, DESIGN 4.9)", "C11": "not yet built (planned, DESIGN 4.11)",
+ "C11": "not yet built (planned, DESIGN 4.11)",
  "C12": "not yet built (planned, DESIGN 4.12)", "C13": "not yet built (planned, DESIGN 4.13)",
  "C14": "not yet built (planned, DESIGN 4.14)",
  "C16": "not yet built (planned, DESIGN 4.16)", "C17": "not yet built (planned, DESIGN 4.17)",
